@@ -32,7 +32,7 @@ Record J (f : features) (s : state) : Prop := mkJ {
            end
 }.
 
-Definition f0 : features := mkFeat false false [] false false false.
+Definition f0 : features := mkFeat false false [] false false false false.
 
 Lemma J_init b : J f0 (init b).
 Proof.
@@ -42,21 +42,24 @@ Qed.
 Lemma in_allowed r f :
   In r (allowed f) <->
   (r = ENil /\ f_close f = true) \/ (exists t, r = EErrEvent t /\ In t (f_errors f)) \/
-  (r = EIO /\ f_peer_closed f = true) \/ (r = EParse /\ f_bad f = true) \/ (r = ETimedOut /\ f_tick f = true).
+  (r = EIO /\ f_peer_closed f = true) \/ (r = EParse /\ f_bad f = true) \/ (r = ETimedOut /\ f_tick f = true) \/
+  (r = EIO /\ f_wfail f = true).
 Proof.
   unfold allowed. rewrite !in_app_iff, in_map_iff. split.
-  - intros [H|[[t [E H]]|[H|[H|H]]]].
+  - intros [H|[[t [E H]]|[H|[H|[H|H]]]]].
     + destruct (f_close f); [destruct H as [H|[]]; left; auto|contradiction].
     + right; left; eauto.
     + destruct (f_peer_closed f); [destruct H as [H|[]]; right; right; left; auto|contradiction].
     + destruct (f_bad f); [destruct H as [H|[]]; right; right; right; left; auto|contradiction].
-    + destruct (f_tick f); [destruct H as [H|[]]; right; right; right; right; auto|contradiction].
-  - intros [[-> H]|[[t [-> H]]|[[-> H]|[[-> H]|[-> H]]]]].
+    + destruct (f_tick f); [destruct H as [H|[]]; right; right; right; right; left; auto|contradiction].
+    + destruct (f_wfail f); [destruct H as [H|[]]; right; right; right; right; right; auto|contradiction].
+  - intros [[-> H]|[[t [-> H]]|[[-> H]|[[-> H]|[[-> H]|[-> H]]]]]].
     + rewrite H. left. left. reflexivity.
     + right. left. eauto.
     + rewrite H. right. right. left. left. reflexivity.
     + rewrite H. right. right. right. left. left. reflexivity.
-    + rewrite H. right. right. right. right. left. reflexivity.
+    + rewrite H. right. right. right. right. left. left. reflexivity.
+    + rewrite H. right. right. right. right. right. left. reflexivity.
 Qed.
 
 (* within a connection the allowed set only grows *)
@@ -64,10 +67,10 @@ Lemma allowed_mono l f r :
   (forall regs p, l <> LConnCall regs p) -> In r (allowed f) -> In r (allowed (feat_step l f)).
 Proof.
   intros Hl. rewrite !in_allowed.
-  destruct l as [|regs p| | | |e|e|r0| | |o|b|ln| |o| |k]; cbn [feat_step];
+  destruct l as [|regs p| | | |e|o|e|r0| | |o|b|ln| |o| | |k]; cbn [feat_step];
     try (exfalso; eapply Hl; reflexivity);
     try (destruct (o_quit o)); try (destruct ln as [[m|t]|x]); try (destruct k as [|[|[|k]]]); cbn;
-    intros [[-> H]|[[t0 [-> H]]|[[-> H]|[[-> H]|[-> H]]]]]; auto 10;
+    intros [[-> H]|[[t0 [-> H]]|[[-> H]|[[-> H]|[[-> H]|[-> H]]]]]]; auto 12;
     try (right; left; exists t0; split; [reflexivity|try apply in_or_app; auto]).
 Qed.
 
@@ -114,7 +117,7 @@ Proof.
   intros I [j1 j2 j3 j4 j5 j6 j7 j8 j9 j10 j11] H. unfold live, err_inflight in *.
   jprep s H; intros Lv t0 Hin; tl_case s;
     try (match goal with E : cpc s = _ |- _ => rewrite E in * end); try discriminate;
-    use_guards s; rewrite ?in_app_iff in *; cbn [In] in *; decomp; subst; try discriminate; inj_all;
+    use_guards s; rewrite ?in_app_iff in *; cbn [In] in *; decomp; repeat (match goal with Hrl : In _ (removelast _) |- _ => apply in_removelast in Hrl end); subst; try discriminate; inj_all;
     try discriminate;
     try solve [auto 3];
     try solve [(try left); apply j3; [first [reflexivity|assumption]|pick]].
@@ -135,7 +138,7 @@ Proof.
   intros I [j1 j2 j3 j4 j5 j6 j7 j8 j9 j10 j11] H. unfold live in *.
   jprep s H; intros Lv x0 Hin; tl_case s;
     try (match goal with E : cpc s = _ |- _ => rewrite E in * end); try discriminate;
-    use_guards s; rewrite ?in_app_iff in *; cbn [In] in *; decomp; subst; try discriminate; inj_all;
+    use_guards s; rewrite ?in_app_iff in *; cbn [In] in *; decomp; repeat (match goal with Hrl : In _ (removelast _) |- _ => apply in_removelast in Hrl end); subst; try discriminate; inj_all;
     try discriminate;
     try solve [auto 3];
     try solve [eapply j5; [first [reflexivity|assumption]|cbn [In]; eauto 3]].
@@ -209,9 +212,9 @@ Proof.
   intros regs p E. subst l. apply tstep_conn_idle in H. unfold live in Lv. rewrite H in Lv. discriminate.
 Qed.
 
-(* a failing read or write before the teardown means the peer closed *)
-Lemma io_fail_peer s : Inv s -> peer_closed s || sock_closed s = true ->
-  (rpc s = RDec \/ spc s = SSel) -> live s = true /\ peer_closed s = true.
+(* a failing read before the teardown means the peer closed *)
+Lemma io_fail_peer s : Inv s -> peer_closed s || sock_closed s = true -> rpc s = RDec ->
+  live s = true /\ peer_closed s = true.
 Proof.
   intros I H L. unfold Inv in I. unfold live.
   destruct (cpc s); decomp;
@@ -240,12 +243,11 @@ Proof.
     apply (j5 Lv x). rewrite H0. left. reflexivity.
   - (* read error *)
     cbn [feat_step]. apply in_allowed. right. right. left. split; [reflexivity|].
-    destruct (io_fail_peer s I H1 (or_introl H)) as [_ Pc]. apply j4; assumption.
-  - (* write error *)
-    cbn [feat_step]. apply in_allowed. right. right. left. split; [reflexivity|].
-    destruct (io_fail_peer s I H2 (or_intror H)) as [_ Pc]. apply j4; assumption.
+    destruct (io_fail_peer s I H1 H) as [_ Pc]. apply j4; assumption.
+  - (* write error of a line other than QUIT *)
+    apply in_allowed. right. right. right. right. right. split; reflexivity.
   - (* ping timeout *)
-    apply in_allowed. right. right. right. right. split; reflexivity.
+    apply in_allowed. right. right. right. right. left. split; reflexivity.
 Qed.
 
 Lemma J_step_10 f s l s' : Inv s -> J f s -> tstep s l s' ->
@@ -319,24 +321,25 @@ Corollary result_cases b tr s r : exec b tr s -> cpc s = CRet r ->
   (exists t, r = EErrEvent t /\ In t (f_errors f)) \/
   (r = EIO /\ f_peer_closed f = true) \/
   (r = EParse /\ f_bad f = true) \/
-  (r = ETimedOut /\ f_tick f = true).
+  (r = ETimedOut /\ f_tick f = true) \/
+  (r = EIO /\ f_wfail f = true).
 Proof. intros H E f. apply in_allowed. eapply result_allowed; eauto. Qed.
 
 (* nil after Close/Quit: when nothing else happened on the connection *)
 Corollary result_nil b tr s r : exec b tr s -> cpc s = CRet r ->
   f_errors (feat_of tr) = [] -> f_peer_closed (feat_of tr) = false ->
-  f_bad (feat_of tr) = false -> f_tick (feat_of tr) = false -> r = ENil.
+  f_bad (feat_of tr) = false -> f_tick (feat_of tr) = false -> f_wfail (feat_of tr) = false -> r = ENil.
 Proof.
-  intros H E He Hp Hb Ht. destruct (result_cases b tr s r H E) as [[-> _]|[[t [_ Hin]]|[[_ X]|[[_ X]|[_ X]]]]];
+  intros H E He Hp Hb Ht Hw. destruct (result_cases b tr s r H E) as [[-> _]|[[t [_ Hin]]|[[_ X]|[[_ X]|[[_ X]|[_ X]]]]]];
     try reflexivity; try congruence. rewrite He in Hin. contradiction.
 Qed.
 
 (* ErrEvent t after ERROR t: when the application did not ask to close and the peer stayed *)
 Corollary result_error b tr s r t : exec b tr s -> cpc s = CRet r ->
   f_close (feat_of tr) = false -> f_errors (feat_of tr) = [t] -> f_peer_closed (feat_of tr) = false ->
-  f_bad (feat_of tr) = false -> f_tick (feat_of tr) = false -> r = EErrEvent t.
+  f_bad (feat_of tr) = false -> f_tick (feat_of tr) = false -> f_wfail (feat_of tr) = false -> r = EErrEvent t.
 Proof.
-  intros H E Hc He Hp Hb Ht. destruct (result_cases b tr s r H E) as [[_ X]|[[t0 [-> Hin]]|[[_ X]|[[_ X]|[_ X]]]]];
+  intros H E Hc He Hp Hb Ht Hw. destruct (result_cases b tr s r H E) as [[_ X]|[[t0 [-> Hin]]|[[_ X]|[[_ X]|[[_ X]|[_ X]]]]]];
     try congruence. rewrite He in Hin. destruct Hin as [->|[]]. reflexivity.
 Qed.
 
@@ -345,7 +348,7 @@ Corollary result_eof b tr s r : exec b tr s -> cpc s = CRet r ->
   f_close (feat_of tr) = false -> f_errors (feat_of tr) = [] ->
   f_bad (feat_of tr) = false -> f_tick (feat_of tr) = false -> r = EIO.
 Proof.
-  intros H E Hc He Hb Ht. destruct (result_cases b tr s r H E) as [[_ X]|[[t0 [_ Hin]]|[[-> _]|[[_ X]|[_ X]]]]];
+  intros H E Hc He Hb Ht. destruct (result_cases b tr s r H E) as [[_ X]|[[t0 [_ Hin]]|[[-> _]|[[_ X]|[[_ X]|[-> _]]]]]];
     try congruence; try reflexivity. rewrite He in Hin. contradiction.
 Qed.
 
@@ -354,7 +357,7 @@ Corollary result_error_then_close b tr s r t : exec b tr s -> cpc s = CRet r ->
   f_close (feat_of tr) = false -> f_errors (feat_of tr) = [t] ->
   f_bad (feat_of tr) = false -> f_tick (feat_of tr) = false -> r = EErrEvent t \/ r = EIO.
 Proof.
-  intros H E Hc He Hb Ht. destruct (result_cases b tr s r H E) as [[_ X]|[[t0 [-> Hin]]|[[-> _]|[[_ X]|[_ X]]]]];
+  intros H E Hc He Hb Ht. destruct (result_cases b tr s r H E) as [[_ X]|[[t0 [-> Hin]]|[[-> _]|[[_ X]|[[_ X]|[-> _]]]]]];
     try congruence; auto. rewrite He in Hin. destruct Hin as [->|[]]. auto.
 Qed.
 
